@@ -250,6 +250,18 @@ func checkC02(c *Ctx) {
 
 	// remap after a leave: indexes recorded for the remaining players are positions in the NEW list
 	checkLeaveRemap(c, "R4")
+	{
+		var adders []*ssa.Function
+		for _, f := range p.Funcs {
+			for _, ci := range Calls(f) {
+				if calleeName(ci.Common()) == "SeatManager.AssignSeats" {
+					adders = append(adders, f)
+					break
+				}
+			}
+		}
+		checkAddPath(c, "R6", adders)
+	}
 	checkTableLookups(c, "R5", "FindPlayerIdx", "FindGamePlayerIdx", "GamePlayerIndex")
 	checkInPlaceFilter(c, "R4")
 	checkHandListStart(c, "R4")
